@@ -100,6 +100,7 @@ func VerifC10Isolation() {
 // its own bindings and props: no data race among the interpreter's own accesses (happens-before detector),
 // and each execution completes as it does alone.
 func VerifC10Concurrent() {
+	verif.MapOrderInsertion(true) // (iteration orders are irrelevant to which accesses happen)
 	s := anyScript("s", 2, opsMutate, []int{retBindings, retObject, retNull})
 	interp := NewInterpreter()
 	ctx := context.Background()
